@@ -255,6 +255,25 @@ def leaf_scan_agreement(ctx):
                 if not ok:
                     why = (f"_test is applied to `{norm(arg)}`, which is not the result of query._path_resolver(...) "
                            f"(a mapped path, e.g. .map(f), is ignored by this leaf)")
+                else:
+                    # the resolver must be fed the stored value bound by the enclosing loop
+                    loop = None
+                    for a_ in ancestors(t):
+                        if isinstance(a_, ast.For):
+                            loop = a_
+                            break
+                    rcalls = [s for s in srcs if isinstance(s, ast.Call) and isinstance(s.func, ast.Attribute)
+                              and s.func.attr == "_path_resolver"]
+                    if loop is not None and rcalls:
+                        tn = names_in(loop.target)
+                        for rc in rcalls:
+                            an = set()
+                            for a_ in rc.args:
+                                an |= names_in(a_)
+                            if not (an & tn):
+                                ok = False
+                                why = (f"the resolver is applied to `{norm(rc.args[0]) if rc.args else '?'}`, which does "
+                                       f"not contain the stored value bound by the loop ({sorted(tn)})")
             yield Ob("C01.R2", ["C01"], f"{f.qual} | _test argument | {norm(t)}{occ(f, t)}", ok,
                      why or "tested value is the resolver's result", ctx.prog.loc(t))
             # the add must be control-dependent on the test being true and bound by the same loop
